@@ -52,16 +52,17 @@ def exhaustive(tier, merged):
 
 def judge_remote_ok(ctx, cid, r, name, unpack, home_listing=None):
     """a substituted load of a remote name on an empty cache"""
+    if r.get("outcome") != "ok" and not (r.get("captured") or []):
+        _ds.capture_of(r, name)       # raises HookNotReached: the substitution was not in effect, nothing to judge
     if r.get("outcome") != "ok":
         ctx.violation("documented_name_not_loadable", cid, {"name": name, "exception": r.get("exc_type"),
                                                             "message": r.get("exc_msg")})
         return None
-    cap = r.get("captured") or []
-    if len(cap) != 1:
-        ctx.violation("loader_did_not_go_through_the_remote_loader_once", cid, {"name": name, "captured": cap})
+    meta = _ds.capture_of(r, name)
+    if meta is None:
+        ctx.violation("remote_name_served_without_its_download", cid, {"name": name, "data": r.get("data")})
         return None
     ctx.monitor("c18:substitution_wrapper")
-    meta = cap[0]
     reqs = [e for e in r["audit"] if e[0] == "request"]
     if len(reqs) != 1 or len(r["requests"]) != 1 or reqs[0][1] != meta["url"]:
         ctx.violation("remote_name_did_not_issue_exactly_one_request_for_its_url", cid,
@@ -408,7 +409,7 @@ def run_switch_home(ctx):
                 ctx.violation("documented_name_not_loadable", cid, {"exception": r.get("exc_type"), "message": r.get("exc_msg")})
                 continue
             bad = _ds.outside_writes(r["audit"], h)
-            cap = (r.get("captured") or [{}])[0]
+            cap = _ds.capture_of(r, n) or {}
             slot = os.path.join(h, cap.get("dataset_folder", "?"), cap.get("dataset_filename", "?"))
             if bad or not os.path.exists(slot):
                 ctx.violation("cache_not_under_the_directory_named_by_TRAFFIC_WEAVER_DATA", cid,
@@ -509,11 +510,13 @@ def run_threads(ctx):
                     ctx.judged()
                     ctx.monitor("c18:threads")
                     r = par[j] if j < len(par) else None
+                    if r and r.get("outcome") != "ok" and not (r.get("captured") or []):
+                        _ds.capture_of(r, n)
                     if not r or r.get("outcome") != "ok":
                         ctx.violation("documented_name_not_loadable_while_sibling_names_are_loading", cid,
                                       {"exception": (r or {}).get("exc_type"), "message": (r or {}).get("exc_msg")})
                         continue
-                    cap = r.get("captured") or []
+                    cap = [c for c in [_ds.capture_of(r, n)] if c]
                     if len(cap) != 1 or not _ds.same_data(r["data"], _ds.expected_desc(cap[0]["url"], 40, False)):
                         ctx.violation("remote_name_returned_other_data", cid, {"data": r.get("data"), "captured": cap})
                         continue
